@@ -3,7 +3,11 @@
 package absnfs
 
 import (
+	"context"
+	"errors"
 	"fmt"
+	"io"
+	"os"
 	"regexp"
 	"runtime"
 	"syscall"
@@ -252,6 +256,61 @@ func TestVerif_C14(t *testing.T) {
 		return nil
 	})
 	runAll("backend-fault", e, func(i int) { cnt = 0; nth = 1 + i%4; ferr = faults[i%len(faults)] })
+	// errno sweep: every errno a backend can plausibly return (and errors that are no errno at
+	// all), at the first three backend calls of well-formed requests of every procedure. The
+	// status on the wire must be a member of nfsstat3 and the result must have that status's shape.
+	var sweep []error
+	for en := 1; en <= 40; en++ {
+		sweep = append(sweep, syscall.Errno(en))
+	}
+	for _, en := range []syscall.Errno{syscall.EREMOTE, syscall.ENOTSUP, syscall.ETIMEDOUT, syscall.ESTALE, syscall.EDQUOT, syscall.ECANCELED, syscall.EOVERFLOW, syscall.ENOSYS, syscall.Errno(0), syscall.Errno(10001), syscall.Errno(10008)} {
+		sweep = append(sweep, en)
+	}
+	sweep = append(sweep, errors.New("backend exploded"), io.ErrUnexpectedEOF, io.EOF, os.ErrClosed, context.DeadlineExceeded, context.Canceled, os.ErrNotExist, os.ErrExist, os.ErrPermission, os.ErrInvalid, os.ErrDeadlineExceeded)
+	var ferrAny error
+	e.fs.SetHook(func(op *refs.Op, ph refs.Phase) error {
+		if ph != refs.Before {
+			return nil
+		}
+		cnt++
+		if cnt == nth {
+			if en, ok := ferrAny.(syscall.Errno); ok {
+				return &fsPathErr{op.Name, op.Path, en}
+			}
+			return fmt.Errorf("%s %s: %w", op.Name, op.Path, ferrAny)
+		}
+		return nil
+	})
+	var wellFormed [][5]any
+	perProc := map[uint32]int{}
+	for _, cl := range e.calls(rng, false) {
+		if cl[0].(uint32) == vfProgNFS && cl[3].(string) == "valid-form" && cl[2].(uint32) >= 1 && cl[2].(uint32) <= 21 && perProc[cl[2].(uint32)] < evid.Pick(2, 6) {
+			perProc[cl[2].(uint32)]++
+			wellFormed = append(wellFormed, cl)
+		}
+	}
+	sweepCalls := 0
+	for si, fe := range sweep {
+		for n := 1; n <= 3; n++ {
+			for _, cl := range wellFormed {
+				prog, vers, proc, args := cl[0].(uint32), cl[1].(uint32), cl[2].(uint32), cl[4].([]byte)
+				cnt, nth, ferrAny = 0, n, fe
+				evid.Journal(map[string]any{"state": "backend-errno-sweep", "proc": proc, "fault": fmt.Sprint(fe), "nth": n, "args": args})
+				xid, raw, err := e.c.rawCall(prog, vers, proc, args)
+				if err != nil {
+					rec.Add("calls_without_reply", 1)
+					continue
+				}
+				sweepCalls++
+				m.judge("backend-errno-sweep", prog, vers, proc, xid, raw, "valid-form", args)
+			}
+			if (si*3+n)%8 == 0 {
+				nth = 0
+				e.restore()
+			}
+		}
+	}
+	rec.Set("errno_sweep", map[string]any{"faults": len(sweep), "positions": 3, "calls": sweepCalls})
 	e.fs.SetHook(nil)
 	e.srv.Close()
 
